@@ -421,16 +421,19 @@ def test_variational(ctx, model):
 
     C04 quantifies over inputs and histories, not over configurations, so the verdict is taken with
     the default configuration (2-site method, default vguess_m = (5, 5)); the states are given
-    bonds up to 8 so that the default guess really is a truncation.  Two non-default settings are
+    bonds up to 8 so that the default guess really is a truncation (mode "default"; mode
+    "mpdm-default" does the same for operator x density operator on the small model).  Two non-default settings are
     also run: the 1-site method from an exact guess (the exact product must be a fixed point of the
     sweep -- judged), and the 2-site method from a poor guess of bond 1..3 (only measured and
     counted: stalling from a poor start is a limitation of the algorithm, not judged here)."""
     rng, run = ctx.rng, ctx.run
-    mode = ["default", "default", "1site-exact-guess", "poor-guess"][int(rng.integers(4))]
+    mode = ["default", "default", "1site-exact-guess", "poor-guess", "mpdm-default"][int(rng.integers(5))]
+    skind = "mpdm" if mode == "mpdm-default" else "mps"
     if mode == "default":
         # own model: long enough and with sectors wide enough for Schmidt ranks above 5
         n = int(rng.integers(4, 6 if ctx.quick else 7))
-        model = lc.build_model(lc.random_model_spec(rng, n, 1, max_d=3, neutral=rng.random() < 0.5))
+        model = lc.build_model(lc.random_model_spec(rng, n, 1, max_d=3, min_d=3, kinds=["me", "sho", "mev"],
+                                                    neutral=rng.random() < 0.5))
     n = model.nsite
     if n < 2:
         return
@@ -447,8 +450,9 @@ def test_variational(ctx, model):
         return
     psi = None
     for _ in range(6):
-        psi = lc.random_chain(rng, model, "mps", cplx=bool(rng.random() < 0.3), max_bond=8 if mode == "default" else 3,
+        psi = lc.random_chain(rng, model, skind, cplx=bool(rng.random() < 0.3), max_bond=8 if mode == "default" else 3,
                               p_one=0.0 if mode == "default" else 0.15, p_dead=0.0 if mode == "default" else 0.15,
+                              bond_dims=([1] + [8] * (n - 1) + [1]) if (mode == "default" and rng.random() < 0.7) else None,
                               coeff=float(rng.choice([1.0, 2.0, 0.5])), centre=n - 1, to_right=False)
         if psi is not None and nrm(lc.dense_state(O) @ lc.dense_state(psi)) > 1e-3 * nrm(lc.dense_state(O)) * nrm(lc.dense_state(psi)):
             break
@@ -458,7 +462,7 @@ def test_variational(ctx, model):
         return
     EO, Epsi = lc.dense_state(O), lc.dense_state(psi)
     P = EO @ Epsi
-    ranks, amb = lc.schmidt_ranks(P, model, "mps")
+    ranks, amb = lc.schmidt_ranks(P, model, skind)
     if amb:
         run.count("rejected:variational-rank-ambiguous")
         return
@@ -466,7 +470,7 @@ def test_variational(ctx, model):
     lc.prep(O, "L")
     lc.prep(psi, "L")
     M = max(ranks) + int(rng.integers(0, 3))
-    if mode == "default":
+    if mode in ("default", "mpdm-default"):
         cfg = CompressConfig(CompressCriteria.fixed, max_bonddim=M)
     elif mode == "1site-exact-guess":
         cfg = CompressConfig(CompressCriteria.fixed, max_bonddim=M, vmethod="1site", vguess_m=(64, 64))
